@@ -788,7 +788,9 @@ func (multi *MultiEpoch) processSlotTransactions(
 			}
 		}
 
-		if !gsfaReadersLoaded { // Only needed if gsfaReaders not loaded, otherwise handled in the main branch
+		// Only needed if gsfaReaders not loaded, otherwise handled in the main branch.
+		// An empty include list does not restrict the accounts (as on the path with the address index loaded).
+		if !gsfaReadersLoaded && len(includeKeys) > 0 {
 			hasOne := false
 			for _, pkey := range includeKeys {
 				ok, err := tx.HasAccount(pkey)
